@@ -7,6 +7,8 @@ package main
 import (
 	"fmt"
 	"go/types"
+	"os"
+	"path/filepath"
 	"reflect"
 	"sort"
 	"strings"
@@ -288,6 +290,90 @@ func configStructs(p *Program) []*types.Named {
 	return out
 }
 
+// unknownSampleKeys: keys of a YAML document (block style, as config.Write
+// produces) that are not the YAML key of a field of the struct they sit in.
+func unknownSampleKeys(doc string, structs []*types.Named) ([]string, int) {
+	root := (*types.Named)(nil)
+	for _, s := range structs {
+		if s.Obj().Name() == "PikeConfig" {
+			root = s
+		}
+	}
+	if root == nil {
+		return nil, 0
+	}
+	yamlKey := func(st *types.Struct, i int) string {
+		y := strings.Split(reflect.StructTag(st.Tag(i)).Get("yaml"), ",")[0]
+		if y == "" {
+			y = strings.ToLower(st.Field(i).Name())
+		}
+		return y
+	}
+	elemStruct := func(t types.Type) (*types.Struct, bool) { // struct, or skip (map / scalar)
+		for {
+			switch u := t.Underlying().(type) {
+			case *types.Slice:
+				t = u.Elem()
+				continue
+			case *types.Pointer:
+				t = u.Elem()
+				continue
+			case *types.Struct:
+				return u, true
+			}
+			return nil, false
+		}
+	}
+	type frame struct {
+		indent int
+		st     *types.Struct // nil: children are not checked (map values, scalars)
+	}
+	stack := []frame{{-1, root.Underlying().(*types.Struct)}}
+	unknown := []string{}
+	n := 0
+	for _, line := range strings.Split(doc, "\n") {
+		trim := strings.TrimLeft(line, " ")
+		if trim == "" || strings.HasPrefix(trim, "#") {
+			continue
+		}
+		indent := len(line) - len(trim)
+		for strings.HasPrefix(trim, "- ") {
+			trim = strings.TrimLeft(trim[2:], " ")
+			indent = len(line) - len(trim)
+		}
+		colon := strings.Index(trim, ":")
+		if colon <= 0 || strings.ContainsAny(trim[:colon], " '\"{[") {
+			continue // a scalar list item
+		}
+		if !(colon == len(trim)-1 || trim[colon+1] == ' ') {
+			continue
+		}
+		key := trim[:colon]
+		for len(stack) > 1 && stack[len(stack)-1].indent >= indent {
+			stack = stack[:len(stack)-1]
+		}
+		cur := stack[len(stack)-1].st
+		if cur == nil {
+			stack = append(stack, frame{indent, nil})
+			continue
+		}
+		n++
+		var child *types.Struct
+		found := false
+		for i := 0; i < cur.NumFields(); i++ {
+			if yamlKey(cur, i) == key {
+				found = true
+				child, _ = elemStruct(cur.Field(i).Type())
+			}
+		}
+		if !found {
+			unknown = append(unknown, key)
+		}
+		stack = append(stack, frame{indent, child})
+	}
+	return unknown, n
+}
+
 func ruleYAMLTable(c *Ctx) {
 	structs := configStructs(c.P)
 	if len(structs) < 7 {
@@ -343,6 +429,9 @@ func ruleYAMLTable(c *Ctx) {
 					bad = append(bad, full+" uses a YAML option that changes the saved shape")
 				}
 			}
+			if j != "" && j != "-" && y != "-" && j != y {
+				bad = append(bad, full+" is the YAML key "+y+" but the JSON key "+j+": the documented key (used by the admin API and the shipped pike.yml) is not the one a configuration file is read with, so the field is silently dropped")
+			}
 			if j != "" && j != "-" {
 				if prev, dup := jk[j]; dup {
 					bad = append(bad, full+" and "+prev+" share the JSON key "+j)
@@ -354,13 +443,52 @@ func ruleYAMLTable(c *Ctx) {
 			}
 		}
 	}
-	c.check(len(bad) == 0, "yaml-table", "config", "config/config.go", fmt.Sprintf("%d exported fields in %d structs: YAML/JSON keys unique, only the two display-only fields are excluded, all types round-trip", n, len(structs)), strings.Join(uniq(bad), " || "), n)
+	// the sample configuration shipped with the source is understood completely
+	sampleKeys := 0
+	if data, err := os.ReadFile(filepath.Join(c.P.Repo, "pike.yml")); err == nil {
+		unknown, cnt := unknownSampleKeys(string(data), structs)
+		sampleKeys = cnt
+		for _, k := range unknown {
+			bad = append(bad, "the shipped pike.yml uses the key "+k+", which no configuration field is read from")
+		}
+	}
+	c.check(len(bad) == 0, "yaml-table", "config", "config/config.go", fmt.Sprintf("%d exported fields in %d structs: YAML/JSON keys unique and equal, only the two display-only fields are excluded, all types round-trip; %d keys of the shipped pike.yml are all known", n, len(structs), sampleKeys), strings.Join(uniq(bad), " || "), n)
 }
 
 // registeredValidators: tag -> library functions its validator calls.
 func registeredValidators(p *Program) (map[string]map[string]bool, map[string]bool) {
 	regs := map[string]map[string]bool{}
 	aliases := map[string]bool{}
+	// registrars: config functions through which a tag reaches the validator library
+	reaches := func(f *ssa.Function, method string) bool {
+		for g := range staticScope(f, "config", 3) {
+			for _, b := range g.Blocks {
+				for _, in := range b.Instrs {
+					if ci, ok := in.(ssa.CallInstruction); ok {
+						if sc := ci.Common().StaticCallee(); sc != nil && sc.Name() == method && sc.Pkg != nil && strings.Contains(sc.Pkg.Pkg.Path(), "go-playground/validator") {
+							return true
+						}
+					}
+				}
+			}
+		}
+		return false
+	}
+	kind := map[*ssa.Function]string{}
+	for _, f := range p.allFuncs {
+		if !inPkg(f, "config") || f.Parent() != nil || len(f.Params) == 0 {
+			continue
+		}
+		if b, ok := f.Params[0].Type().Underlying().(*types.Basic); !ok || b.Kind() != types.String {
+			continue
+		}
+		switch {
+		case reaches(f, "RegisterValidation"):
+			kind[f] = "validate"
+		case reaches(f, "RegisterAlias"):
+			kind[f] = "alias"
+		}
+	}
 	for _, f := range p.allFuncs {
 		if !inPkg(f, "config") {
 			continue
@@ -371,37 +499,44 @@ func registeredValidators(p *Program) (map[string]map[string]bool, map[string]bo
 				if !ok || call.Call.StaticCallee() == nil {
 					continue
 				}
-				switch call.Call.StaticCallee().Name() {
-				case "addValidate":
-					if cst, ok := call.Call.Args[0].(*ssa.Const); ok {
-						tag, _ := constTerm(cst.Value, cst.Type()).StrVal()
-						calls := map[string]bool{}
-						var fnv *ssa.Function
-						switch x := stripConv(call.Call.Args[1]).(type) {
-						case *ssa.MakeClosure:
-							fnv = x.Fn.(*ssa.Function)
-						case *ssa.Function:
-							fnv = x
-						}
-						if fnv != nil {
-							for _, bb := range fnv.Blocks {
-								for _, i2 := range bb.Instrs {
-									if ci, ok := i2.(ssa.CallInstruction); ok {
-										if sc := ci.Common().StaticCallee(); sc != nil {
-											calls[sc.String()] = true
-										}
+				k := kind[call.Call.StaticCallee()]
+				if k == "" {
+					continue
+				}
+				cst, ok := call.Call.Args[0].(*ssa.Const)
+				if !ok {
+					continue // a registrar forwarding its own parameter
+				}
+				tag, _ := constTerm(cst.Value, cst.Type()).StrVal()
+				if k == "alias" {
+					aliases[tag] = true
+					continue
+				}
+				calls := map[string]bool{}
+				for _, a := range call.Call.Args[1:] {
+					var fnv *ssa.Function
+					switch x := stripConv(a).(type) {
+					case *ssa.MakeClosure:
+						fnv, _ = x.Fn.(*ssa.Function)
+					case *ssa.Function:
+						fnv = x
+					}
+					if fnv == nil {
+						continue
+					}
+					for g := range staticScope(fnv, "config", 2) {
+						for _, bb := range g.Blocks {
+							for _, i2 := range bb.Instrs {
+								if ci, ok := i2.(ssa.CallInstruction); ok {
+									if sc := ci.Common().StaticCallee(); sc != nil {
+										calls[sc.String()] = true
 									}
 								}
 							}
 						}
-						regs[tag] = calls
-					}
-				case "addAlias":
-					if cst, ok := call.Call.Args[0].(*ssa.Const); ok {
-						tag, _ := constTerm(cst.Value, cst.Type()).StrVal()
-						aliases[tag] = true
 					}
 				}
+				regs[tag] = calls
 			}
 		}
 	}
